@@ -9,12 +9,17 @@ use crate::prng::Rng;
 
 #[derive(Clone, Debug, Default)]
 pub struct MainArgs {
-    /// values typed after -E / --extension, verbatim
+    /// values typed after -E / --extension, verbatim, before the subcommand (or without one)
     pub ext_raw: Vec<String>,
     pub dis_raw: Vec<String>,
     pub en_raw: Vec<String>,
-    pub globs: Vec<String>,
     pub ignores: Vec<String>,
+    /// the same flags typed after the `list` subcommand
+    pub ext_post: Vec<String>,
+    pub dis_post: Vec<String>,
+    pub en_post: Vec<String>,
+    pub ign_post: Vec<String>,
+    pub globs: Vec<String>,
     pub list: bool,
     /// globs typed after the `list` subcommand
     pub list_globs: Vec<String>,
@@ -40,33 +45,52 @@ impl MainArgs {
                 _ => vec![format!("{short}{v}")],
             }
         };
+        let mut pre: Vec<Vec<String>> = Vec::new();
+        let mut post: Vec<Vec<String>> = Vec::new();
         for v in &self.ext_raw {
-            flags.push(flag("-E", "--extension", v, rng));
+            pre.push(flag("-E", "--extension", v, rng));
         }
         for v in &self.dis_raw {
-            flags.push(flag("-d", "--disable", v, rng));
+            pre.push(flag("-d", "--disable", v, rng));
         }
         for v in &self.en_raw {
-            flags.push(flag("-e", "--enable", v, rng));
+            pre.push(flag("-e", "--enable", v, rng));
         }
         for v in &self.ignores {
-            flags.push(if rng.chance(1, 2) { vec!["--ignore".to_string(), v.clone()] } else { vec![format!("--ignore={v}")] });
+            pre.push(if rng.chance(1, 2) { vec!["--ignore".to_string(), v.clone()] } else { vec![format!("--ignore={v}")] });
+        }
+        for v in &self.ext_post {
+            post.push(flag("-E", "--extension", v, rng));
+        }
+        for v in &self.dis_post {
+            post.push(flag("-d", "--disable", v, rng));
+        }
+        for v in &self.en_post {
+            post.push(flag("-e", "--enable", v, rng));
+        }
+        for v in &self.ign_post {
+            post.push(if rng.chance(1, 2) { vec!["--ignore".to_string(), v.clone()] } else { vec![format!("--ignore={v}")] });
         }
         let mut a: Vec<String> = Vec::new();
-        let mut tail: Vec<String> = Vec::new();
-        for f in flags {
-            // global flags may follow the subcommand
-            if self.list && rng.chance(1, 3) {
-                tail.extend(f);
-            } else {
-                a.extend(f);
+        // flags and positional globs may be interleaved
+        let mut globs: Vec<String> = self.globs.clone();
+        for f in pre {
+            if !globs.is_empty() && rng.chance(1, 3) {
+                a.push(globs.remove(0));
             }
+            a.extend(f);
         }
-        a.extend(self.globs.iter().cloned());
+        a.extend(globs);
         if self.list {
             a.push("list".into());
-            a.extend(self.list_globs.iter().cloned());
-            a.extend(tail);
+            let mut lg: Vec<String> = self.list_globs.clone();
+            for f in post {
+                if !lg.is_empty() && rng.chance(1, 3) {
+                    a.push(lg.remove(0));
+                }
+                a.extend(f);
+            }
+            a.extend(lg);
         }
         a
     }
@@ -77,13 +101,18 @@ impl MainArgs {
         let ok = |v: &Vec<String>| v.iter().all(|g| globset::Glob::new(g).is_ok());
         let all_globs: Vec<String> = self.globs.iter().chain(self.list_globs.iter()).cloned().collect();
         format!(
-            "(mkcli {} {} {} {} {} {} {} {} {} {})",
+            "(mkcli {} {} {} {} {} {} {} {} {} {} {} {} {} {} {})",
             strs(&self.ext_raw),
+            strs(&self.ext_post),
             strs(&self.dis_raw),
+            strs(&self.dis_post),
             strs(&self.en_raw),
+            strs(&self.en_post),
+            self.ign_post.len(),
             all_globs.len(),
             cbool(ok(&all_globs)),
             cbool(ok(&self.ignores)),
+            cbool(ok(&self.ign_post)),
             cbool(self.list),
             cbool(stdin.is_none()),
             cstr(stdin.as_deref().unwrap_or("")),
